@@ -6,7 +6,7 @@
    [table_ok T] is a boolean; the harness evaluates it in Coq, on every run, on the texts of the linked Go
    package (cases_C16.v: live_table_ok), and below on the texts of the pinned tree. *)
 From Coq Require Import String NArith List Bool.
-From Verif Require Import Model.Proxy Proofs.ProxyProofs.
+From Verif Require Import Model.Proxy Proofs.ProxyProofs Check.ProxyCheck.
 Import ListNotations.
 Open Scope string_scope.
 Open Scope list_scope.
@@ -83,6 +83,58 @@ Theorem C16_count_sound_full : forall T (b : backend) (max : N) (cancelled : boo
 Proof. exact count_sound. Qed.
 Print Assumptions C16_count_sound_full.
 
+(* THE ERROR TEXT ARRIVES WHOLE.  Over the wire an error is only its text, and its class is found in that text;
+   so "the same classification" rests on: whatever the backing DA says — a text of ANY length — is what the
+   node's helper is handed behind the proxy ([e_msg e] is an arbitrary string, nothing bounds it).
+   Submit (batch within the limit): in-process the helper is handed the DA's text; behind the proxy the same
+   text ([carried]: or exactly context.Canceled's text when the text mentions a cancellation), and the client
+   knows of the error exactly the sentinels its text mentions.  Retrieve: a GetIDs error text arrives unchanged
+   (a cancellation mentioning neither "not found" nor "from the future" becomes context.Canceled's text); the text
+   of a failing Get arrives whole behind the client's "failed to get blobs: " (or becomes context.Canceled's).
+   The harness compares both texts of every call pair with these functions (Check.ProxyCheck codes 7, 8). *)
+Theorem C16_error_text_full : forall T,
+  (forall (b : backend) max sizes e, (sumN sizes <= max)%N -> sizes <> [] -> b sizes = SFail e ->
+     answer_text (direct_answer T b false sizes) = Some (e_msg e)
+     /\ exists a, answer_text (proxied_answer T max b false sizes) = Some a /\ carried T (e_msg e) a)
+  /\ (forall e s, contains (e_msg e) (t_ctx T) = false ->
+        is_sent (client_submit_err T (wire_err (server_err e))) s = contains (e_msg e) (txt T s))
+  /\ (forall e get, direct_retrieve_text T (GErr e) get false = Some (e_msg e)
+        /\ exists a, proxied_retrieve_text T (GErr e) get false = Some a
+             /\ (a = e_msg e \/ (contains (e_msg e) (txt T SNotFound) = false /\ contains (e_msg e) (txt T SFuture) = false
+                                  /\ contains (e_msg e) (t_ctx T) = true /\ a = t_ctx T)))
+  /\ (forall x ids ts get,
+        proxied_retrieve_text T (GRes (x :: ids) ts) get false
+        = option_map (get_carried T) (direct_retrieve_text T (GRes (x :: ids) ts) get false)).
+Proof. exact error_text. Qed.
+Print Assumptions C16_error_text_full.
+
+(* the answers whose text the theorem above speaks of are the answers the helpers classify *)
+Theorem C16_answer_is_classified_full : forall T max b cancelled sizes,
+  fst (proxied_submit T max b cancelled sizes) = submit_helper (length sizes) (proxied_answer T max b cancelled sizes)
+  /\ fst (direct_submit T b cancelled sizes) = submit_helper (length sizes) (direct_answer T b cancelled sizes).
+Proof. exact (fun T max b c sizes => conj (proxied_submit_answer T max b c sizes) (direct_submit_answer T b c sizes)). Qed.
+Print Assumptions C16_answer_is_classified_full.
+
+(* A SENTINEL WRAPPED ANYWHERE, IN A CONTEXT OF ANY LENGTH, keeps its class.  For every sentinel [s] and ALL
+   strings [pre], [post] (the error last: post = "", first: pre = "", in the middle; 0 bytes or 1 MB): the
+   sentinel's text is found in the message, and if the rest mentions no other class ([others_clean], a boolean)
+   the proxied class is the class of the bare sentinel.  Retrieve: "not found" anywhere -> StNotFound, "from
+   the future" anywhere (and no "not found") -> StFuture, for any identity and any surrounding text. *)
+Theorem C16_wrapped_anywhere_full : forall T, table_ok T = true -> forall s pre post,
+  let m := (pre ++ txt T s ++ post)%string in
+  contains m (txt T s) = true
+  /\ (others_clean T s m = true ->
+      classify_submit (client_submit_err T (wire_err (server_err (mk_err [s] false m)))) = classify_submit (sent_err T s)).
+Proof. exact wrapped_anywhere. Qed.
+Print Assumptions C16_wrapped_anywhere_full.
+
+Theorem C16_wrapped_anywhere_retrieve_full : forall T, table_ok T = true -> forall is c pre post get,
+  ro_code (proxied_retrieve T (GErr (mk_err is c (pre ++ txt T SNotFound ++ post)%string)) get false) = StNotFound
+  /\ (contains (pre ++ txt T SFuture ++ post)%string (txt T SNotFound) = false ->
+      ro_code (proxied_retrieve T (GErr (mk_err is c (pre ++ txt T SFuture ++ post)%string)) get false) = StFuture).
+Proof. exact wrapped_anywhere_retrieve. Qed.
+Print Assumptions C16_wrapped_anywhere_retrieve_full.
+
 (* ---- non-vacuity ---------------------------------------------------------------------------------------- *)
 (* the texts of the pinned tree (core/da/errors.go) *)
 Definition pinned_tbl : table :=
@@ -140,3 +192,26 @@ Example retrieve_example :
   /\ ro_code (proxied_retrieve pinned_tbl (GErr (mk_err [SFuture] false "height 9 is in the future: given height is from the future"))
                 (fun ids => BOk ids) false) = StFuture.
 Proof. vm_compute. repeat split; reflexivity. Qed.
+
+
+(* a celestia-style error of 5065 bytes with the class at the very end (5000 bytes of hex dump before it) is in
+   the domain, keeps its class, and arrives with its whole text *)
+Definition long_err : err :=
+  mk_err [STimedOut] false (rope [Lit "broadcast tx "; Fil 0 5000; Lit ": timed out waiting for tx to be included in a block"]).
+
+Example long_error_example :
+  N.of_nat (String.length (e_msg long_err)) = 5065%N
+  /\ wfb pinned_tbl long_err = true
+  /\ others_clean pinned_tbl STimedOut (e_msg long_err) = true
+  /\ fst (proxied_submit pinned_tbl 100 (fun _ => SFail long_err) false [3; 4]%N) = mk_sobs StNotIncluded [] 0 0
+  /\ answer_text (proxied_answer pinned_tbl 100 (fun _ => SFail long_err) false [3; 4]%N) = Some (e_msg long_err)
+  /\ proxied_retrieve_text pinned_tbl (GErr long_err) (fun ids => BOk ids) false = Some (e_msg long_err).
+Proof. vm_compute. repeat split; reflexivity. Qed.
+
+(* why the text matters: were the text cut at 256 bytes on its way (a wire that is NOT [wire_err]), the class
+   would be gone — the sentinel stands after the context *)
+Example a_cut_text_loses_the_class :
+  let cut := mk_err [] false (substring 0 256 (e_msg long_err) ++ "... (truncated)")%string in
+  classify_submit (client_submit_err pinned_tbl cut) = StError
+  /\ classify_submit (client_submit_err pinned_tbl (wire_err (server_err long_err))) = StNotIncluded.
+Proof. vm_compute. split; reflexivity. Qed.
